@@ -246,6 +246,10 @@ pub struct ExIoError(std::io::Error);
 #[verifier::external_body]
 pub struct ExUri(http::Uri);
 
+/// A-string-hash: `String` obeys vstd's hash-table key model (deterministic Hash, Eq is content equality).
+pub broadcast axiom fn axiom_string_key_model()
+    ensures #[trigger] vstd::std_specs::hash::obeys_key_model::<String>();
+
 /// A-string-ext: a `String` is determined by its contents.
 pub axiom fn axiom_string_ext(a: String, b: String)
     ensures a@ == b@ ==> a == b;
